@@ -1290,7 +1290,10 @@ def _emitter_samples(ctx):
     meths = [decl("Method", "at", [("i", "size_t", (), None)]), decl("Method", "size", [], ret="size_t"),
              decl("Method", "tag", [("label", "string", (), None, {"is_const": "const", "is_ref": "&"}), ("plain", "string", (), None)], ret="void"),
              decl("Method", "at", [("i", "size_t", (), None), ("j", "size_t", (), None), ("c", "double", (), "0.0")]), decl("Method", "at", [])]
-    funcs = [decl("GlobalFunction", "scale", [D], parent=nsn), decl("GlobalFunction", "scale", [D, ("k", "K", ("ns",), None), ("w", "double", (), "1.0")], parent=nsn)]
+    # (the first declaration is repeated, as happens when two interface files of a module share a helper: the list keeps both)
+    funcs = [decl("GlobalFunction", "scale", [D], parent=nsn), decl("GlobalFunction", "scale", [D], parent=nsn),
+             decl("GlobalFunction", "scale", [D, ("k", "K", ("ns",), None), ("w", "double", (), "1.0")], parent=nsn),
+             decl("GlobalFunction", "scale", [("label", "string", (), None)], parent=nsn)]
     cls["static_methods"] = statics
     cls["methods"] = meths
     me = sample_wrapper(ctx, module_name="mod", wrapper_id=3, wrapper_map={}, use_boost_serialization=False, __kind__="MatlabWrapper")
@@ -1561,3 +1564,80 @@ def rule_property_accessors_by_evaluation(ctx, rep: Report, rid="I12", parts=("s
                 rep.add(rid, f"property routines:{role}ter of a {kind} property", not probs,
                         f"{probs}: for `{'ns::K* ' if kind == 'shared pointer' else ('ns::K ' if 'value' in kind else 'double ')}{n};` the routine is\n{(r or '').strip()[:300]}",
                         f"{ci.mod.rel}:{gc.lineno}")
+
+
+# ------------------------------------------------------------------------------------------ I13 the class file carries the class's name
+def _int_constants_near(prog, ci, fns) -> List[int]:
+    """Integer constants a name-shaping function may cut or pad at: literals in the given functions and the integer class
+    attributes of the wrapper and its mixins."""
+    out = set()
+    for fn in fns:
+        for n in ast.walk(fn):
+            if isinstance(n, ast.Constant) and isinstance(n.value, int) and not isinstance(n.value, bool) and 2 < n.value <= 4096:
+                out.add(n.value)
+    for c in prog.mro(ci):
+        for a, v in c.attrs.items():
+            if isinstance(v, ast.Constant) and isinstance(v.value, int) and not isinstance(v.value, bool) and 2 < v.value <= 4096:
+                out.add(v.value)
+    return sorted(out)
+
+
+def rule_class_file_named_after_the_class(ctx, rep: Report, rid="I13"):
+    """The `.m` file of a class and its `classdef` line carry the class's own (instantiated) name, whatever its length: every
+    other generated text - `isa` guards, constructors called for returned objects, base-class lists, the package directory of
+    the class's enums - names the class in full, and two classes must not share a file (the second would overwrite the first,
+    whose ids then keep their cases and routines but lose every call site).  Decided by evaluating, on the backward slice of
+    wrap_instantiated_class, the file name it returns and the name it puts after `classdef`, for sample classes with and
+    without constructors and names of every length around the integer constants the wrapper mentions."""
+    from .rules_matlab import SampleObj, _PathEval, _Raised, slice_eval
+    ci, prog = mw(ctx)
+    fn = prog.method("MatlabWrapper", "wrap_instantiated_class")
+    methods = _all_methods(prog, ci)
+    loc = f"{ci.mod.rel}:{fn.lineno}"
+    rets = [r for r in walk_no_nested(fn) if isinstance(r, ast.Return) and isinstance(r.value, ast.Tuple) and len(r.value.elts) == 2]
+    cdef = None
+    for c in walk_no_nested(fn):
+        if isinstance(c, ast.Call) and isinstance(c.func, ast.Attribute) and c.func.attr == "format" and isinstance(c.func.value, ast.Constant) \
+                and isinstance(c.func.value.value, str) and c.func.value.value.lstrip().startswith("classdef"):
+            cdef = c
+    if not rets or cdef is None:
+        raise AnalysisError(f"{rep.prop}/{rid}: the returned (file name, text) pair or the classdef line of wrap_instantiated_class not found")
+    name_arg = next((k.value for k in cdef.keywords if k.arg == "class_name"), cdef.args[0] if cdef.args else None)
+    if name_arg is None:
+        raise AnalysisError(f"{rep.prop}/{rid}: the classdef line does not take the class name as `class_name`")
+    helpers = [f_ for n_, f_ in methods.items() if n_ in {c.func.attr for c in ast.walk(fn) if isinstance(c, ast.Call) and isinstance(c.func, ast.Attribute)
+                                                          and unparse(c.func.value) == "self"} and n_.startswith("_")]
+    lengths = {4, 40, 300}
+    for c in _int_constants_near(prog, ci, [fn] + helpers):
+        lengths |= {c - 1, c, c + 1, c + 17}
+    me, cls0, *_ = _emitter_samples(ctx)
+    me.setdefault("ignore_classes", [])
+    me.setdefault("content", [])
+    probs, ran = [], 0
+    try:
+        for ln in sorted(x for x in lengths if x > 0):
+            for with_ctor in (False, True):
+                name = ("SmartFactorWithAVeryLongName" * 200)[:ln - 1] + "Z"
+                cls = SampleObj(cls0)
+                cls["name"] = name
+                cls["ctors"] = [SampleObj(__kind__="Constructor", name=name, args=SampleObj(__kind__="ArgumentList", args_list=[], parent=None), parent=cls)] \
+                    if with_ctor else []
+                ps = func_params(fn)
+                env = dict(zip(ps, [me, cls, "ns."]))
+                got_file = slice_eval(fn, rets[-1].value.elts[0], env, methods=methods, budget=20000)
+                got_name = slice_eval(fn, name_arg, env, methods=methods, budget=20000)
+                ran += 1
+                what = f"a class with a name of {ln} characters" + (" and a constructor" if with_ctor else "")
+                if got_file != name + ".m":
+                    probs.append(f"{what} is written to a file named with {len(str(got_file)) - 2} characters")
+                if got_name != name:
+                    probs.append(f"{what} is declared as a classdef named with {len(str(got_name))} characters")
+    except (_PathEval.Unknown, _Raised, TypeError, KeyError, IndexError) as e:
+        rep.add(rid, "the class file and the classdef carry the class's name", True, f"not evaluable ({str(e)[:80]})", loc, nontrivial=False)
+        rep.units["class_file_names_evaluated"] = 0
+        return
+    rep.units["class_file_names_evaluated"] = ran
+    rep.add(rid, "the class file and the classdef carry the class's name", not probs,
+            f"{sorted(set(probs), key=probs.index)[:3]}: the rest of the toolbox names the class in full (guards, constructors of returned objects, base lists), and two "
+            f"classes whose names agree in the part kept share one file - the ids of the one overwritten keep their cases and routines and lose "
+            f"every call site", loc)
